@@ -36,7 +36,7 @@ func init() {
 				returnsUndecorated(c, "C18")
 			}},
 			{ID: "C18-R3", Title: "entity keys: full hex of the name + the listed suffix, used by all operations", Decides: "holds for every entity name; listing returns exactly the live entries", Floor: 6, Run: func(c *core.Ctx) { c18r3(c); entityCtorPasses(c) }},
-			{ID: "C18-R4", Title: "errors surface; successful lookups read the storage", Decides: "not-found after delete; no stale entries", Floor: 4, Run: c18r4},
+			{ID: "C18-R4", Title: "errors surface; successful lookups read the storage", Decides: "not-found after delete; no stale entries", Floor: 4, Run: func(c *core.Ctx) { c18r4(c); polarityEverywhere(c, "C18") }},
 			{ID: "C18-R5", Title: "exact listing filter; only Set/Delete change files; writes and deletes are unconditional; opening is read-only", Decides: "listing returns exactly the live entries; values survive re-opening; the last value set is what is read", Floor: 6, Run: c18r5},
 		},
 	})
@@ -52,7 +52,7 @@ func init() {
 		NotDecided:  []string{"durability across power loss"},
 		Rules: []core.Rule{
 			{ID: "C19-R1", Title: "the destination is never written in place and never removed", Decides: "never a mixture, an empty or a truncated value; never absent after it held a value", Floor: 2, Run: c19r1},
-			{ID: "C19-R2", Title: "write, close, then rename; rename only after success", Decides: "either the previous or the new value in full", Floor: 3, Run: c19r2},
+			{ID: "C19-R2", Title: "write, close, then rename; rename only after success", Decides: "either the previous or the new value in full", Floor: 3, Run: func(c *core.Ctx) { c19r2(c); polarityEverywhere(c, "C19") }},
 			{ID: "C19-R3", Title: "temp files are invisible to listings", Decides: "other keys / listings are untouched by an interrupted write", Floor: 1, Run: func(c *core.Ctx) { c19r3(c); tempFileInStorageDirectory(c) }},
 			{ID: "C19-R4", Title: "one Set per entity / per config key", Decides: "database operations built on Set are atomic per key", Floor: 2, Run: func(c *core.Ctx) { c19r4(c); noDeleteBeforeSave(c) }},
 			{ID: "C19-R5", Title: "only Set renames, only Set/Delete remove; opening and reading change no file (shared with C18-R5)", Decides: "a left-over temporary file is never promoted to a value", Floor: 6, Run: c18r5},
@@ -751,6 +751,7 @@ func c18r3(c *core.Ctx) {
 
 // c18r3Rest: the listing and the loader agree with the key (suffix = the constant suffix of entity keys).
 func c18r3Rest(c *core.Ctx, suffix string) {
+	c18LoaderDetails(c, suffix)
 	p := c.P
 	// listing suffix
 	ent := p.Func("db", "(*database).Entities")
@@ -1909,4 +1910,132 @@ func tempFileExclusive(c *core.Ctx) {
 	}
 	c.Check(shared == nil, "temp-file-exclusive@"+fname(set), pos, "the temporary file is created exclusively",
 		"the temporary file of a write is opened without O_EXCL under a name derived from the key: it is the file of another key (Set(k) destroys the live key k+suffix) and it is shared by overlapping writes of one key (the stored value becomes a mixture, or is written in place)")
+}
+
+// c18LoaderDetails: the loader and the listing, looked at the way a mutation sweep looks at them (each condition below is an edit of
+// db/database.go that every check let pass before): the suffix taken off the key is the suffix the key was given; on the path where
+// nothing failed the stored bytes are decoded and the name is taken from the key; the listing tests the loader's error and goes on to
+// the next key after it has appended an entity.
+func c18LoaderDetails(c *core.Ctx, suffix string) {
+	p := c.P
+	isErrVal := func(v ssa.Value) bool { return v.Type().String() == "error" }
+	// allSuccess: every test of an error value against nil on the path takes the nil edge
+	allSuccess := func(pa core.Path) bool {
+		for k := 0; k+1 < len(pa); k++ {
+			iff, ok := pa[k].Instrs[len(pa[k].Instrs)-1].(*ssa.If)
+			if !ok {
+				continue
+			}
+			bo, ok := iff.Cond.(*ssa.BinOp)
+			if !ok || (bo.Op != token.EQL && bo.Op != token.NEQ) {
+				continue
+			}
+			var ev ssa.Value
+			switch {
+			case core.IsNilConst(bo.Y) && isErrVal(bo.X):
+				ev = bo.X
+			case core.IsNilConst(bo.X) && isErrVal(bo.Y):
+				ev = bo.Y
+			default:
+				continue
+			}
+			_ = ev
+			nilEdge := 0
+			if bo.Op == token.NEQ {
+				nilEdge = 1
+			}
+			if pa[k+1] != pa[k].Succs[nilEdge] {
+				return false
+			}
+		}
+		return true
+	}
+	if ld := p.Func("db", "(*database).entityForKey"); ld != nil && len(ld.Params) > 1 && len(bodies(ld)) == 1 {
+		// suffix agreement
+		core.Instrs(ld, func(i ssa.Instruction) {
+			if !core.IsCall(i, "strings.TrimSuffix") {
+				return
+			}
+			a := core.Args(i)
+			got, isK := core.ConstString(a[1])
+			c.Check(isK && got == suffix && valIs(a[0], ld.Params[1]), "loaded-name-suffix-agrees@"+fname(ld), posOf(i), fmt.Sprintf("the loader takes %q off the key, the suffix of toEntityKey", suffix),
+				fmt.Sprintf("the loader removes %q from (its argument 0 of TrimSuffix) where entity keys end in %q: the rest is not the hex of the name, the name falls back to what the JSON kept (invalid bytes replaced) — or the arguments are exchanged", got, suffix))
+		})
+		var nameStore, decode ssa.Instruction
+		core.Instrs(ld, func(i ssa.Instruction) {
+			if st, ok := i.(*ssa.Store); ok {
+				if _, isName := core.FieldAddrOf(st.Addr, mod+"/db.Entity", "Name"); isName {
+					nameStore = i
+				}
+			}
+			if core.IsCall(i, "encoding/json.Unmarshal") {
+				decode = i
+			}
+		})
+		if nameStore != nil && decode != nil {
+			good, n := true, 0
+			okEnum := core.EnumPaths(ld, 2, 20000, func(pa core.Path) {
+				if pa.Returns() == nil || !allSuccess(pa) {
+					return
+				}
+				n++
+				hasStore, hasDecode := false, false
+				pa.Instrs(func(i ssa.Instruction) {
+					if i == nameStore {
+						hasStore = true
+					}
+					if i == decode {
+						hasDecode = true
+					}
+				})
+				if !hasStore || !hasDecode {
+					good = false
+				}
+			})
+			if !okEnum {
+				c.Undecided("loader-success-path@"+fname(ld), ld.Pos(), "too many paths")
+			} else {
+				c.Check(good && n > 0, "loader-success-path@"+fname(ld), ld.Pos(), "where nothing failed, the stored bytes are decoded and the name is taken from the key",
+					"on the path of the loader on which no call failed the stored bytes are not decoded, or the name is not taken from the key (a test the wrong way round, or dropped): entities come back empty — a controller's key is not found, pair-verify fails — or under the name JSON kept")
+			}
+		}
+	}
+	if ent := p.Func("db", "(*database).Entities"); ent != nil && len(bodies(ent)) == 1 {
+		var app, load ssa.Instruction
+		core.Instrs(ent, func(i ssa.Instruction) {
+			if cl, ok := i.(*ssa.Call); ok {
+				if b, isB := cl.Call.Value.(*ssa.Builtin); isB && b.Name() == "append" && core.TypeIs(sliceElem(cl.Type()), mod+"/db.Entity") {
+					app = i
+				}
+			}
+			if g := core.Callee(i); g != nil && cn(g) == "entityForKey" {
+				load = i
+			}
+		})
+		if app != nil && load != nil {
+			tested := false
+			if cl, ok := load.(*ssa.Call); ok {
+				for _, r := range *cl.Referrers() {
+					if e, isE := r.(*ssa.Extract); isE && e.Index == 1 {
+						for _, rr := range *e.Referrers() {
+							if bo, isB := rr.(*ssa.BinOp); isB && (bo.Op == token.EQL || bo.Op == token.NEQ) {
+								tested = true
+							}
+						}
+					}
+				}
+			}
+			c.Check(reachesAfter(app, app) && reachesAfter(load, app) && tested, "listing-covers-every-key@"+fname(ent), posOf(app), "the listing appends what it loaded, goes on to the next key, and tests the loader's error",
+				"the listing stops after the first entity, does not append what it loaded, or does not test the loader's error: stored pairings are not listed (an accessory with pairings advertises itself as unpaired) or unreadable entries are listed as empty entities")
+		} else {
+			c.Note("listing-covers-every-key@"+fname(ent), ent.Pos(), "the listing does not have the shape 'load each key with the common loader and append' (decided by listing-loader)")
+		}
+	}
+}
+
+func sliceElem(t types.Type) types.Type {
+	if sl, ok := t.Underlying().(*types.Slice); ok {
+		return sl.Elem()
+	}
+	return t
 }
